@@ -81,7 +81,7 @@ func opPubKeyOps(_ *HState, a Event) Event {
 		for _, f := range []bchutil.PubKeyFormat{bchutil.PKFCompressed, bchutil.PKFUncompressed, bchutil.PKFHybrid, bchutil.PKFCompressed} {
 			ad.SetFormat(f)
 			ser := ad.ScriptAddress()
-			forms = append(forms, map[string]interface{}{"fmt": names[ad.Format()], "ser": ints(ser), "str": str(ad.String()), "enc": str(ad.EncodeAddress()),
+			forms = append(forms, map[string]interface{}{"fmt": names[ad.Format()], "ser": ints(ser), "str": str(retainStr("AddressPubKey", "String", ad.String())), "enc": str(retainStr("AddressPubKey", "EncodeAddress", ad.EncodeAddress())),
 				"pkhenc": str(ad.AddressPubKeyHash().EncodeAddress())})
 			env = append(env, envHash160(ser)...)
 			env = append(env, envSha256d(append([]byte{net.LegacyPubKeyHashAddrID}, ripemd(sha256b(ser))...)))
@@ -94,7 +94,10 @@ func opPubKeyOps(_ *HState, a Event) Event {
 
 func opHashFn(_ *HState, a Event) Event {
 	d := gBytes(a, "data")
-	e := with(a, "h160", ints(bchutil.Hash160(d)), "h256", ints(bchutil.Hash256(d)))
+	h160, h256 := bchutil.Hash160(d), bchutil.Hash256(d)
+	retain("Hash", "h160", h160)
+	retain("Hash", "h256", h256)
+	e := with(a, "h160", ints(h160), "h256", ints(h256))
 	e["env"] = append(envHash160(d), envHash256(d)...)
 	return e
 }
